@@ -323,6 +323,9 @@ class Sym:
         if isinstance(o, numpy.ndarray) and o.ndim:
             return NotImplemented
         o = Sym.lift(o)
+        if self.sq_of is not None and o.sq_of is not None and (o is self or (
+                not conc(self.re) and not conc(o.re) and self.re.get_id() == o.re.get_id())) and St.mode == "REAL":
+            return Sym(self.sq_of)          # sqrt(x) * sqrt(x) = x  (x >= 0 is the sqrt's own domain axiom)
         a, b, c, d = self.re, self.im, o.re, o.im
         if is_zero(b) and is_zero(d):
             return Sym(vmul(a, c))
@@ -451,6 +454,45 @@ class Sym:
 
     def sin(self):
         return sym_exp(self * Sym(0, 1)).imag
+
+    def tan(self):
+        e = sym_exp(self * Sym(0, 1))
+        return e.imag / e.real
+
+    def hypot(self, o):
+        o = Sym.lift(o)
+        return (self * self + o * o).sqrt()
+
+    def square(self):
+        return self * self
+
+    def reciprocal(self):
+        return Sym(1) / self
+
+    def cbrt(self):
+        return self ** Fr(1, 3)
+
+    def deg2rad(self):
+        return self * Sym(math.pi / 180.0)
+    radians = deg2rad
+
+    def rad2deg(self):
+        return self * Sym(180.0 / math.pi)
+    degrees = rad2deg
+
+    def log(self):
+        return sym_log(self)
+
+    def log2(self):
+        return sym_log(self) / sym_log(Sym(2))
+
+    def arctan(self):
+        if self.isreal() and conc(self.re):
+            St.float_evals += 1
+            return Sym(math.atan(float(self.re)))
+        if not self.isreal():
+            raise NotImplementedError("arctan of a complex symbolic value")
+        return Sym(uf("arctan", 1)(canon(self.re) if St.mode == "REAL" else self.re))
 
     def floor(self):
         if not self.isreal():
@@ -817,6 +859,20 @@ def sym_log10(x):
         St.float_evals += 1
         return Sym(math.log10(x.re))
     return Sym(uf("log10", 1)(canon(x.re) if St.mode == "REAL" else x.re))
+
+
+def sym_log(x):
+    """natural logarithm: floating point on a concrete argument, otherwise an uninterpreted function (functional
+    consistency only; ln 1 = 0)"""
+    x = Sym.lift(x)
+    if not x.isreal():
+        raise NotImplementedError("log of a complex symbolic value")
+    if conc(x.re):
+        if x.re == 1:
+            return Sym(0)
+        St.float_evals += 1
+        return Sym(math.log(x.re))
+    return Sym(uf("ln", 1)(canon(x.re) if St.mode == "REAL" else x.re))
 
 
 # ------------------------------------------------------------------ axioms in the cone of influence
